@@ -121,9 +121,9 @@ def reader_predicate(c):
 def pages_predicate(c):
     g = c["go"]
     if g.startswith("SHORTREAD"):
-        return (None, "pageBuffer.ReadFrom returned before the reader's end (bytes lost) or with the wrong error class: " + g[:80])
+        return (None, "pageBuffer.ReadFrom returned before the reader's end (bytes lost) or with the wrong error class")
     if g.startswith("UNSTABLE"):
-        return (None, "bytes seen through a live pageRef changed while it was open: " + g[:60])
+        return (None, "bytes seen through a live pageRef changed while it was open")
     if g.startswith("corrupt"):
         return (None, "concurrent decodes recycling pooled pages: a ref read other bytes than were written: " + g[:40])
     if g.startswith(("GENBUG", "PANIC")):
